@@ -1,8 +1,56 @@
 import JokerVerif.Drive.Common
-/-! Driver handlers for C10 (to be filled in). -/
+import JokerVerif.Model.Rng
+/-! Driver handlers for C10: execute the seed-sequence / generator model of `Model/Rng.lean`. -/
 open Lean Drive
+
 namespace Drive
 
-def rngOps : List (String × H) := []
+private def jKey (s : Rng.SeedSeq) : Json :=
+  Json.mkObj [("key", jNats s.key), ("entropy", toString s.entropy), ("nSpawned", jNat s.nSpawned)]
+
+/-- `rng.spawnTrace`: parent generator `(entropy, key, nSpawned, pos)` and the events of a whole history
+(`{"draw": n}` / `{"spawn": m}`) → what an observer must record, and the final parent state -/
+def rngSpawnTraceOp : H := fun j => do
+  let ent ← getStr j "entropy"
+  let some entropy := ent.toNat? | throw "entropy must be a decimal string"
+  let key ← getNats j "key"
+  let nsp ← getNat j "nSpawned"
+  let pos ← getNat j "pos"
+  let evsJ ← getArr j "events"
+  let mut evs : List Rng.Ev := []
+  for e in evsJ do
+    match e.getObjValAs? Nat "draw" with
+    | .ok n => evs := evs ++ [Rng.Ev.draw n]
+    | .error _ =>
+      let m ← getNat e "spawn"
+      evs := evs ++ [Rng.Ev.spawn m]
+  let g : Rng.Gen := ⟨⟨entropy, key.toList, nsp⟩, pos⟩
+  let r := Rng.run g evs
+  let obs := r.2.map fun
+    | .segment s n => Json.mkObj [("segment", jNats [s, n])]
+    | .children ks => Json.mkObj [("children", Json.arr (ks.map jKey).toArray)]
+  return Json.mkObj [("obs", Json.arr obs.toArray), ("pos", jNat r.1.pos),
+    ("nSpawned", jNat r.1.ss.nSpawned), ("key", jNats r.1.ss.key),
+    ("childKeys", Json.arr ((Rng.kidsOf r.2).map (fun c => jNats c.key)).toArray)]
+
+/-- `rng.callEvents`: the event encoding of one public call (file path / in-memory path) -/
+def rngCallEventsOp : H := fun j => do
+  let rounds ← getNats j "rounds"
+  let inmem ← getBool j "inMemory"
+  let evs ←
+    if inmem then do
+      let nMvn ← getNat j "nMvn"
+      pure (Rng.inmemCallEvents rounds.toList nMvn)
+    else do
+      let nSh ← getNat j "nShuffle"
+      let nT ← getNat j "nTasks"
+      pure (Rng.fileCallEvents nSh rounds.toList nT)
+  let out := evs.map fun
+    | .draw n => Json.mkObj [("draw", jNat n)]
+    | .spawn m => Json.mkObj [("spawn", jNat m)]
+  return Json.mkObj [("events", Json.arr out.toArray)]
+
+def rngOps : List (String × H) :=
+  [("rng.spawnTrace", rngSpawnTraceOp), ("rng.callEvents", rngCallEventsOp)]
 
 end Drive
